@@ -373,8 +373,15 @@ pub fn c05_forget(cfg: &Value) {
         q.append(t);
         returned.push(t);
     }
-    producer.join().unwrap();
-    drop(q); // last handle
+    if cfg["concurrent_drop"].as_bool().unwrap_or(false) {
+        // the producer's clone and main's handle go away concurrently: whichever drop is last,
+        // the writer must notice that no appender is left
+        drop(q);
+        producer.join().unwrap();
+    } else {
+        producer.join().unwrap();
+        drop(q); // last handle
+    }
     let closed = |log: &Log| log.lock().unwrap().last() == Some(&Ev::Dropped);
     let mut rounds = 0;
     while !closed(&log) && rounds < horizon {
